@@ -57,6 +57,7 @@ func route(host, backend string) liteconfig.Route {
 var routeSets = map[string][]liteconfig.Route{
 	"r0":   {route("play.example.test", "backend.example.test:25565")},
 	"rA":   {route("play.example.test", "backend-a.example.test:25565"), route("*.a.example.test", "a2.example.test:25565")},
+	"rA2":  {route("play2.example.test", "backend-a2.example.test:25565"), route("*.a2.example.test", "a22.example.test:25565")},
 	"rB":   {route("b.example.test", "backend-b.example.test:25565")},
 	"rBad": {{Host: []string{"play.example.test"}}}, // no backend
 }
@@ -84,6 +85,7 @@ func pool() map[string]*config.Config {
 	return map[string]*config.Config{
 		"same":    mk("r0", nil),
 		"A":       mk("rA", nil),
+		"A2":      mk("rA2", nil),
 		"B":       mk("rB", nil),
 		"inv":     mk("rBad", nil),
 		"other":   mk("r0", bind),
@@ -98,6 +100,28 @@ type world struct {
 	pool    map[string]*config.Config
 	byJSON  map[string]string // JSON of a configuration -> pool name
 	routeBy map[string]string // JSON of a route list -> routes id
+	// a candidate object the caller keeps, passes to apply calls as is, and edits in place
+	// afterwards; keptName is the pool content it currently has ("A" or "A2")
+	kept     *config.Config
+	keptName string
+	useKept  func() bool
+}
+
+// editKept rewrites the kept candidate in place (elements of its route, host and backend
+// slices), turning content A into A2 or back.
+func (w *world) editKept() (from, to string) {
+	from, to = w.keptName, "A2"
+	if from == "A2" {
+		to = "A"
+	}
+	target := routeSets["r"+to]
+	for i := range w.kept.Config.Lite.Routes {
+		r := &w.kept.Config.Lite.Routes[i]
+		r.Host[0] = target[i].Host[0]
+		r.Backend[0] = target[i].Backend[0]
+	}
+	w.keptName = to
+	return from, to
 }
 
 func js(v any) string {
@@ -110,12 +134,13 @@ func js(v any) string {
 
 func newWorld(t *testing.T) *world {
 	w := &world{pool: pool(), byJSON: map[string]string{}, routeBy: map[string]string{}}
-	for _, name := range []string{"liteoff", "otherA", "other", "inv", "B", "A", "same"} {
+	for _, name := range []string{"liteoff", "otherA", "other", "inv", "B", "A2", "A", "same"} {
 		w.byJSON[js(w.pool[name])] = name
 	}
 	for id, r := range routeSets {
 		w.routeBy[js(r)] = id
 	}
+	w.kept, w.keptName = clone(w.pool["A"]), "A"
 	g, err := gate.New(gate.Options{Config: initial()})
 	if err != nil {
 		t.Fatal(err)
@@ -180,11 +205,15 @@ func (w *world) doOp(tw *tracefmt.Writer, name string, o op, mine *string) {
 	}
 }
 
-// cand hands the real code its own copy: the harness never shares a candidate between calls.
+// cand hands the real code a fresh copy, except in sequential histories where the caller may
+// pass the candidate object it keeps (and edits in place later).
 func (w *world) cand(name string) *config.Config {
 	c := w.pool[name]
 	if c == nil {
 		return nil
+	}
+	if name == w.keptName && w.useKept != nil && w.useKept() {
+		return w.kept // the caller's own long-lived object, not a fresh copy
 	}
 	return clone(c)
 }
@@ -196,6 +225,7 @@ type stats struct {
 	Unfinished int            `json:"unfinished"`
 	Sequential int            `json:"sequential_runs"`
 	SeqOps     int            `json:"sequential_ops"`
+	Edits      int            `json:"caller_edits_of_applied_candidates"`
 	Stress     int            `json:"stress_runs"`
 	Events     int            `json:"events"`
 	Hooks      map[string]int `json:"hook_events"`
@@ -307,7 +337,7 @@ func TestLiveConfig(t *testing.T) {
 
 	// 2. seeded sequential histories over the whole pool, observed after every operation
 	rng := rand.New(rand.NewSource(tracefmt.Seed()))
-	names := []string{"same", "A", "B", "inv", "other", "otherA", "liteoff", "none"}
+	names := []string{"same", "A", "A2", "A", "A2", "B", "inv", "other", "otherA", "liteoff", "none"}
 	nSeq := tracefmt.EnvInt("VERIF_SEQ", 60)
 	for i := 0; i < nSeq; i++ {
 		w := begin(i, "sequential")
@@ -315,6 +345,7 @@ func TestLiveConfig(t *testing.T) {
 		relay(c, tw, &st, &mu)
 		c.Install()
 		done := c.Adopt("s")
+		w.useKept = func() bool { return rng.Intn(2) == 0 }
 		mine := w.observeQuiet(c)["version"].(string)
 		seen := []string{mine}
 		for k := 0; k < 12; k++ {
@@ -341,6 +372,14 @@ func TestLiveConfig(t *testing.T) {
 			ob["ev"] = "obs"
 			tw.Emit(ob)
 			st.SeqOps++
+			if rng.Intn(3) == 0 { // the caller edits the candidate object it keeps; nothing may change
+				from, to := w.editKept()
+				tw.Emit(tracefmt.Rec{"ev": "edit", "from": from, "to": to})
+				ob := w.observeQuiet(c)
+				ob["ev"] = "obs"
+				tw.Emit(ob)
+				st.Edits++
+			}
 		}
 		done()
 		c.Uninstall()
